@@ -24,6 +24,16 @@ def make_scratch(tag="s"):
     # copy working tree (not .git, not target)
     subprocess.run(["rsync", "-a", "--exclude", "/target", "--exclude", "/.git", "--exclude", "target/",
                     REPO + "/", dst + "/"], check=True)
+    # cargo decides freshness by mtime: make every source of the copy newer than anything in the shared target dirs
+    # (rsync -a preserved the original mtimes), so workspace crates are always rebuilt from THIS copy's text
+    now = time.time()
+    for root, dirs, files in os.walk(dst):
+        if "/target" in root:
+            continue
+        for f in files:
+            if f.endswith((".rs", ".toml")):
+                try: os.utime(os.path.join(root, f), (now, now))
+                except OSError: pass
     return d, dst
 
 def offline_env(extra=None):
